@@ -42,20 +42,58 @@ theorem onConn_cases {A : Nat} {e : Ev} (h : onConn A e = true) :
   | srvSub cb f q => simp [onConn] at h
   | srvUnsub cb f => simp [onConn] at h
 
+/-! ### take-over
+
+The one way in which an event of `A` legitimately ends another connection: a first packet that
+is an acceptable CONNECT carrying the client identifier of a live connection disconnects that
+connection (MQTT-3.1.4-2, `takenOver`).  The isolation statements are about events that take
+nobody over. -/
+
+/-- the event takes nobody over -/
+def noTakeOver (b : B) : Ev → Prop
+  | .first _ f a => takenOver b f a = []
+  | _ => True
+
+/-- ... all along a run -/
+def noTakeOverRun : B → List Ev → Prop
+  | _, [] => True
+  | b, e :: es => noTakeOver b e ∧ noTakeOverRun (step b e).1 es
+
+theorem step_first_noTakeOver (b : B) (c : Nat) (f : First) (a : Bool) (h : noTakeOver b (.first c f a)) :
+    step b (.first c f a) = first b c f a := by
+  have h0 : takenOver b f a = [] := h
+  rw [Mqtt.Proofs.Connect.step_first_eq, Mqtt.Proofs.Connect.connect_eq, takeOver_eq, h0]
+  simp [Mqtt.Proofs.Connect.stopAll_nil]
+
+theorem noTakeOverRun_of_notFirst (evs : List Ev) (h : ∀ e ∈ evs, ∀ c f a, e ≠ .first c f a) :
+    ∀ b, noTakeOverRun b evs := by
+  induction evs with
+  | nil => intro b; trivial
+  | cons e es ih =>
+    intro b
+    refine ⟨?_, ih (fun e' he' => h e' (List.mem_cons_of_mem _ he')) _⟩
+    cases e with
+    | first c f a => exact absurd rfl (h _ (List.mem_cons_self ..) c f a)
+    | _ => trivial
+
 /-! ### the other connections' table entries -/
 
-theorem step_getConn_other (b : B) (A B' : Nat) (e : Ev) (he : onConn A e = true) (hne : B' ≠ A) :
-    (step b e).1.getConn B' = b.getConn B' := by
+theorem step_getConn_other (b : B) (A B' : Nat) (e : Ev) (he : onConn A e = true) (hne : B' ≠ A)
+    (hto : noTakeOver b e) : (step b e).1.getConn B' = b.getConn B' := by
   apply step_conn_kept
   rcases onConn_cases he with ⟨f, a, rfl⟩ | ⟨p, rfl⟩ | rfl
-  · exact fun h => hne h.symm
+  · intro h
+    rcases h with h | h
+    · exact hne h.symm
+    · have h0 : takenOver b f a = [] := hto
+      rw [h0] at h; cases h
   · cases p <;> simp only [endsConn] <;> first | exact fun h => hne h.symm | exact fun h => h
   · exact fun h => hne h.symm
 
-theorem step_alive_other (b : B) (A B' : Nat) (e : Ev) (he : onConn A e = true) (hne : B' ≠ A) :
-    (step b e).1.alive B' = b.alive B' := by
+theorem step_alive_other (b : B) (A B' : Nat) (e : Ev) (he : onConn A e = true) (hne : B' ≠ A)
+    (hto : noTakeOver b e) : (step b e).1.alive B' = b.alive B' := by
   unfold B.alive
-  rw [step_getConn_other b A B' e he hne]
+  rw [step_getConn_other b A B' e he hne hto]
 
 /-! ### outputs -/
 
@@ -191,9 +229,10 @@ theorem packet_iso (b : B) (c : Nat) (p : Packet) : ∀ o ∈ (packet b c p).2, 
       | pingresp => unfold packet at ho; simp only [hc, ha, hs1] at ho; cases ho
       | connectAgain => unfold packet at ho; simp only [hc, ha, hs1] at ho; cases ho
 
-theorem step_iso (b : B) (A : Nat) (e : Ev) (he : onConn A e = true) : ∀ o ∈ (step b e).2, isoOut A o = true := by
+theorem step_iso (b : B) (A : Nat) (e : Ev) (he : onConn A e = true) (hto : noTakeOver b e) :
+    ∀ o ∈ (step b e).2, isoOut A o = true := by
   rcases onConn_cases he with ⟨f, a, rfl⟩ | ⟨p, rfl⟩ | rfl
-  · exact first_iso b A f a
+  · rw [step_first_noTakeOver b A f a hto]; exact first_iso b A f a
   · exact packet_iso b A p
   · exact stop_iso b A
 
@@ -257,12 +296,14 @@ def sharesSession (b : B) (A r : Nat) (e : Ev) : Prop :=
   ∃ req a, e = .first A (.connect req) a ∧ (resumed b A req).map (·.ref) = some r
 
 theorem step_getSess_other {b : B} (hi : Inv b) (A : Nat) (e : Ev) (he : onConn A e = true) (r : Nat) (s : Sess)
-    (hs : b.getSess r = some s) (hsh : ¬ sharesSession b A r e) : (step b e).1.getSess r = some s := by
+    (hs : b.getSess r = some s) (hsh : ¬ sharesSession b A r e) (hto : noTakeOver b e) :
+    (step b e).1.getSess r = some s := by
   have hA : ∀ cn, b.getConn A = some cn → cn.sess ≠ r := by
     intro cn hc e1
     exact hsh (.inl (by unfold sessRefOf; rw [hc]; simp [e1]))
   rcases onConn_cases he with ⟨f, a, rfl⟩ | ⟨p, rfl⟩ | rfl
-  · refine first_will_kept hi A f a r s hs ?_
+  · rw [step_first_noTakeOver b A f a hto]
+    refine first_will_kept hi A f a r s hs ?_
     cases f with
     | connect req => exact fun h => hsh (.inr ⟨req, a, rfl, h.2⟩)
     | other t => exact fun h => h
@@ -272,23 +313,23 @@ theorem step_getSess_other {b : B} (hi : Inv b) (A : Nat) (e : Ev) (he : onConn 
 
 /-! ### any number of events of `A` -/
 
-theorem run_iso (A : Nat) (evs : List Ev) : ∀ (b : B), (∀ e ∈ evs, onConn A e = true) →
+theorem run_iso (A : Nat) (evs : List Ev) : ∀ (b : B), (∀ e ∈ evs, onConn A e = true) → noTakeOverRun b evs →
     (∀ B', B' ≠ A → (run b evs).1.getConn B' = b.getConn B') ∧
     (∀ os ∈ (run b evs).2, ∀ o ∈ os, isoOut A o = true) := by
   induction evs with
-  | nil => intro b _; exact ⟨fun _ _ => rfl, by intro os h; cases h⟩
+  | nil => intro b _ _; exact ⟨fun _ _ => rfl, by intro os h; cases h⟩
   | cons e es ih =>
-    intro b h
+    intro b h hto
     have he := h e (by simp)
-    obtain ⟨h1, h2⟩ := ih (step b e).1 (fun e' he' => h e' (by simp [he']))
+    obtain ⟨h1, h2⟩ := ih (step b e).1 (fun e' he' => h e' (by simp [he'])) hto.2
     simp only [run]
     constructor
     · intro B' hne
-      rw [h1 B' hne, step_getConn_other b A B' e he hne]
+      rw [h1 B' hne, step_getConn_other b A B' e he hne hto.1]
     · intro os hos
       simp only [List.mem_cons] at hos
       rcases hos with rfl | hos
-      · exact step_iso b A e he
+      · exact step_iso b A e he hto.1
       · exact h2 os hos
 
 /-- nothing an event of `A` emits closes, or writes anything but a PUBLISH with RETAIN = 0 to, another connection -/
@@ -328,11 +369,11 @@ theorem send_own (b : B) (c : Nat) (p : Packet) : ∀ o ∈ send b c p, ownOut c
   · simp only [List.mem_singleton] at ho; subst ho; simp [ownOut]
   · cases ho
 
-theorem step_quiet_own (b : B) (A : Nat) (e : Ev) (he : onConn A e = true) (hq : quietEv e = true) :
-    ∀ o ∈ (step b e).2, ownOut A o = true := by
+theorem step_quiet_own (b : B) (A : Nat) (e : Ev) (he : onConn A e = true) (hq : quietEv e = true)
+    (hto : noTakeOver b e) : ∀ o ∈ (step b e).2, ownOut A o = true := by
   intro o ho
   rcases onConn_cases he with ⟨f, a, rfl⟩ | ⟨p, rfl⟩ | rfl
-  · change o ∈ (first b A f a).2 at ho
+  · rw [step_first_noTakeOver b A f a hto] at ho
     cases hacc : accepts f a with
     | false =>
       rcases first_refused b A f a hacc with h1 | ⟨k, _, h1⟩
